@@ -24,6 +24,7 @@ from liquid2.filter import with_environment
 from liquid2.limits import to_int
 from liquid2.stringify import to_liquid_string
 from liquid2.undefined import is_undefined
+from liquid2.limits import to_str
 
 if TYPE_CHECKING:
     from ...environment import Environment  # noqa: TID252
@@ -204,7 +205,7 @@ def uniq(sequence: Sequence[Any], key: object = None) -> list[object]:
                 item = MISSING
             except TypeError as err:
                 raise LiquidTypeError(
-                    f"can't read property '{key}' of {obj}",
+                    f"can't read property '{to_str(key)}' of {to_str(obj)}",
                     token=None,
                 ) from err
 
@@ -224,7 +225,7 @@ def compact(sequence: Sequence[Any], key: object = None) -> list[object]:
         try:
             return [itm for itm in sequence if itm[key] is not None]
         except TypeError as err:
-            raise LiquidTypeError(f"can't read property '{key}'", token=None) from err
+            raise LiquidTypeError(f"can't read property '{to_str(key)}'", token=None) from err
     return [itm for itm in sequence if itm is not None]
 
 
